@@ -18,7 +18,7 @@ Cases == StringsOver(Alphabet, MaxLen) \cup [1..SmallLen -> Small] \cup Sample(N
 (* Long strings (C++ compilers limit the length of one literal, emitters may cut a long body into adjacent  *)
 (* literals): k plain characters, then n copies of a character that needs a multi-character escape, so that  *)
 (* escapes of every width lie across every possible cut position near 8190 escaped characters.               *)
-LongCases == {[i \in 1..k |-> 97] \o [i \in 1..un[2] |-> un[1]] : k \in 0..2, un \in {<<1, 2100>>, <<256, 1400>>, <<128512, 850>>}}
+LongCases == {[i \in 1..k |-> 97] \o [i \in 1..un[2] |-> un[1]] : k \in 0..1, un \in {<<1, 2100>>, <<256, 1400>>, <<128512, 850>>}}
 ASSUME JsonSerialize(IOEnv.VERIF_OUT, SetToSeq(Cases) \o SetToSeq(LongCases))
 ASSUME PrintT(<<"@@PRINT@@ cases", Cardinality(Cases)>>)
 VARIABLE dummy
